@@ -148,6 +148,8 @@ def raw_case(ctx, data, sched, bufsize, reads, label):
         try:
             w = wrapper_class()(sock, encoding=0, bufsize=bufsize)
             for k in reads:
+                if (len(out) + len(reads)) % 7 == 3:
+                    w.write(b"$GPGGA,,,,,,0,,,,,,,,*66\r\n")  # writing does not disturb what is being received
                 r = w.readline() if k == "L" else w.read(k)
                 out += r
                 if mon.problem:
@@ -204,6 +206,8 @@ def chunked_case(ctx, bodies, how, sched, bufsize, reads):
         try:
             w = wrapper_class()(sock, encoding=flags, bufsize=bufsize)
             for k in reads:
+                if (len(out) + k) % 5 == 2:
+                    w.write(b"$GPGGA,,,,,,0,,,,,,,,*66\r\n")  # (chunked mode: a request sent while a response is in flight)
                 out += w.read(k)
                 if mon.problem:
                     break
